@@ -89,10 +89,10 @@ theorem mem_memAccesses_answers (p : AProgram) (i : Ast.Instruction) (x : Nat ×
         ∃ r, x.1 = regionId p r ∧ r ∈ (match x.2 with | .read => rs | .write => ws | .capture => cs) := by
   obtain ⟨n, k⟩ := x
   cases ha : accessNames p i with
-  | none => simp [memAccesses, answersOf, ha]
+  | none => simp [memAccesses, answersOf, answersWith, ha]
   | some t =>
     obtain ⟨rs, ws, cs⟩ := t
-    simp only [memAccesses, answersOf, ha, Option.map_some, Option.getD_some, List.mem_append, List.mem_map,
+    simp only [memAccesses, answersOf, answersWith, ha, Option.map_some, Option.getD_some, List.mem_append, List.mem_map,
       Prod.mk.injEq, Option.some.injEq, exists_and_left]
     constructor
     · rintro ((⟨a, ⟨r, hr, rfl⟩, rfl, rfl⟩ | ⟨a, ⟨r, hr, rfl⟩, rfl, rfl⟩) | ⟨a, ⟨r, hr, rfl⟩, rfl, rfl⟩)
@@ -134,8 +134,8 @@ theorem role_rf_iff (i : Ast.Instruction) : role i = .rf ↔ C26.IsFrameInstr (t
 
 /-- the frame accesses of the answer record are exactly C26's `UsedBy` (as uses) and `BlockedBy` (as blocks) of
 defined frames -/
-theorem mem_frameAccesses_answers (p : AProgram) (i : Ast.Instruction) (x : Nat × Kind) :
-    x ∈ frameAccesses (answersOf p i) ↔ ∃ f, x.1 = frameId p f ∧ FrameAccessA p i f x.2 := by
+theorem mem_frameAccesses_answersWith (rid : String → Nat) (p : AProgram) (i : Ast.Instruction) (x : Nat × Kind) :
+    x ∈ frameAccesses (answersWith rid p i) ↔ ∃ f, x.1 = frameId p f ∧ FrameAccessA p i f x.2 := by
   have hc := C26.C26_matchingFrames_correct (c26Prog p) (toC26 i)
   obtain ⟨n, k⟩ := x
   by_cases hr : role i = .rf
@@ -143,7 +143,7 @@ theorem mem_frameAccesses_answers (p : AProgram) (i : Ast.Instruction) (x : Nat 
     obtain ⟨m, hm⟩ := Option.isSome_iff_exists.1 hsome
     have hu := hc.used m hm
     have hb := hc.blocked m hm
-    simp only [frameAccesses, answersOf, hr, hm, Option.map_some, List.mem_append, List.mem_map, Prod.mk.injEq,
+    simp only [frameAccesses, answersOf, answersWith, hr, hm, Option.map_some, List.mem_append, List.mem_map, Prod.mk.injEq,
       exists_and_left]
     constructor
     · rintro (⟨a, ⟨f, hf, rfl⟩, rfl, rfl⟩ | ⟨a, ⟨f, hf, rfl⟩, rfl, rfl⟩)
@@ -161,11 +161,11 @@ theorem mem_frameAccesses_answers (p : AProgram) (i : Ast.Instruction) (x : Nat 
       | some m =>
         exfalso
         exact hr ((role_rf_iff i).2 (hc.some_iff.1 (by unfold matchedFrames at hm; simp [hm])))
-    have hfa : frameAccesses (answersOf p i) = [] := by
+    have hfa : frameAccesses (answersWith rid p i) = [] := by
       unfold frameAccesses
       split
       · rename_i h1 _
-        simp only [answersOf] at h1
+        simp only [answersOf, answersWith] at h1
         exact absurd h1 hr
       · rfl
     rw [hfa]
@@ -181,13 +181,18 @@ theorem mem_frameAccesses_answers (p : AProgram) (i : Ast.Instruction) (x : Nat 
     · exact (hall _ f).1 hf.2
     · exact hf
 
+theorem mem_frameAccesses_answers (p : AProgram) (i : Ast.Instruction) (x : Nat × Kind) :
+    x ∈ frameAccesses (answersOf p i) ↔ ∃ f, x.1 = frameId p f ∧ FrameAccessA p i f x.2 :=
+  mem_frameAccesses_answersWith _ p i x
+
 /-- **C24's / C22's hypothesis is a theorem for the default handler**: the frames an instruction uses and blocks
 are pairwise distinct after numbering -/
-theorem answers_framesNodup (p : AProgram) (i : Ast.Instruction) : FramesNodup (answersOf p i) := by
+theorem answersWith_framesNodup (rid : String → Nat) (p : AProgram) (i : Ast.Instruction) :
+    FramesNodup (answersWith rid p i) := by
   unfold FramesNodup frameAccesses
   split
   · rename_i fr _ hfr
-    simp only [answersOf] at hfr
+    simp only [answersOf, answersWith] at hfr
     cases hm : matchedFrames p i with
     | none => simp [hm] at hfr
     | some m =>
@@ -226,6 +231,9 @@ theorem answers_framesNodup (p : AProgram) (i : Ast.Instruction) : FramesNodup (
         subst this
         exact hdis f ⟨hf, hg⟩
   · simp
+
+theorem answers_framesNodup (p : AProgram) (i : Ast.Instruction) : FramesNodup (answersOf p i) :=
+  answersWith_framesNodup _ p i
 
 /-- the terminator instruction of a block is a control-flow instruction -/
 theorem term_role (p : AProgram) (ab : ABlock) (hab : ab ∈ astBlocks p) (t : Ast.Instruction)
@@ -295,7 +303,7 @@ theorem schedBlock_hyp (p : AProgram) (ab : ABlock) (hab : ab ∈ astBlocks p) :
   · intro t ht
     simp only [schedBlock, Option.map_eq_some_iff] at ht
     obtain ⟨t0, ht0, rfl⟩ := ht
-    simp only [answersOf]
+    simp only [answersOf, answersWith]
     exact term_role p ab hab t0 ht0
 
 /-- on success no instruction of the block had a failing `memory_accesses` -/
